@@ -245,6 +245,22 @@ class ABase:
     def Implies(self, a, b):
         return self.Or(self.Not(a), b)
 
+    # exact comparators (no tolerance in concrete mode): for compare-only code
+    def xle(self, a, b):
+        return S._b_cmp('le')(a, b) if (is_sym(a) or is_sym(b)) else bool(a <= b)
+
+    def xlt(self, a, b):
+        return S._b_cmp('lt')(a, b) if (is_sym(a) or is_sym(b)) else bool(a < b)
+
+    def xge(self, a, b):
+        return self.xle(b, a)
+
+    def xgt(self, a, b):
+        return self.xlt(b, a)
+
+    def xeq(self, a, b):
+        return S._b_cmp('eq')(a, b) if (is_sym(a) or is_sym(b)) else bool(a == b)
+
     def call(self, f, *a, **k):
         """Call f; returns ('ok', value) or ('exc', exception)."""
         try:
